@@ -137,13 +137,19 @@ def utf8_oracle(v):
 
 
 def width_table(F, res, rule="U1"):
-    from lib import inline as IL
+    from lib import cfold as CF
     nm0 = F.fn(LM + "normalize")
-    nm = IL.inlined(F, nm0, want=lambda p: p.startswith(LM) and "{closure" not in p and
-                    p.rsplit("::", 1)[-1] not in ("normalize", "pos_for_line_col", "line_col_for_pos", "end_col_for_line", "last_line"), depth=2)
     diff_adt = "glas::vfs::CodeUnitsDiff"
     discr = {n: int(v) for v, n in F.discr_map(diff_adt).items()}
-    units = [nm] + [F.fns[c] for c in F.closures_of(nm0.path) if F.fns[c].blocks]
+    # the classification may sit in normalize itself, in one of its closures, or in a helper of the vfs module it calls
+    # (`CodeUnitsDiff::for_leading_byte(b)`, `LineMap::line_char_diffs(bytes)`)
+    paths = []
+    for p in F.with_helpers(nm0.path, depth=3):
+        if p.startswith(("glas::vfs::", "<glas::vfs::")) and p in F.fns and F.fns[p].blocks:
+            for q in F.with_closures(p):
+                if q not in paths and F.fns[q].blocks:
+                    paths.append(q)
+    units = [F.fns[q] for q in paths]
     found = None
     for u in units:
         if not any((s.get("rv") or {}).get("k") == "agg" and (s["rv"].get("adt") or "") == diff_adt for b, i, s in u.stmts()):
@@ -166,7 +172,6 @@ def width_table(F, res, rule="U1"):
         if not cands:
             continue
         bl = max(cands, key=lambda k: len(cands[k]))
-        # start: the block among the comparing ones that dominates the others
         blocks = sorted(set(cands[bl]))
         start = [x for x in blocks if all(u.dominates(x, y) for y in blocks)]
         if not start:
@@ -180,7 +185,13 @@ def width_table(F, res, rule="U1"):
     u, bl, start, heads = found
     table, bad, undecided = {}, [], []
     for v in range(256):
-        got = classify_byte(u, start, bl, v, diff_adt, heads)
+        def hook(bb, st_, env, _adt=diff_adt):
+            rv = st_.get("rv") or {}
+            if st_["k"] == "assign" and rv.get("k") == "agg" and (rv.get("adt") or "") == _adt:
+                return rv["variant"]
+            return None
+        why, where_, _env = CF.run(u, start, {bl: v}, stop=heads, fixed={bl}, on_stmt=hook)
+        got = where_ if why == "hit" else ("skip" if why in ("stop", "return") else None)
         want = utf8_oracle(v)
         if got is None:
             undecided.append(v)
@@ -745,30 +756,51 @@ def same_file(F, res, rule="U6"):
            where=tl.loc(), how=how)
     we = F.fn("glas::convert::to_workspace_edit")
     units = [F.fns[c] for c in F.with_closures(we.path) if F.fns[c].blocks]
-    ok, how = False, "no line_map_for_file in to_workspace_edit"
+
+    def item_component(u, du, op, depth=0):
+        """(kind, index): the operand is component `index` of the entry being converted - of the item a closure is called
+        with (directly, or captured by an inner closure) or of the payload a `next()` of the entry iterator answered"""
+        o = du.origin_op(op, through_calls=("Clone>::clone", "Clone::clone", "Deref>::deref"))
+        idxs = []
+        while o.get("k") == "field":
+            idxs = [e.get("f") for e in o.get("proj", []) if isinstance(e, dict) and "f" in e] + idxs
+            o = o["base"]
+        if o.get("k") == "arg" and u.kind == "Closure":
+            if o.get("n") == 2 and idxs:
+                return ("closure item", idxs[0])
+            if o.get("n") == 1 and idxs and depth < 3:
+                pf, po = FL.upvar_origin(F, u.path, idxs[0])
+                if pf is not None and po:
+                    if po.get("k") in ("field", "arg"):
+                        o2, i2 = po, []
+                        while o2.get("k") == "field":
+                            i2 = [e.get("f") for e in o2.get("proj", []) if isinstance(e, dict) and "f" in e] + i2
+                            o2 = o2["base"]
+                        if o2.get("k") == "arg" and o2.get("n") == 2 and pf.kind == "Closure" and i2:
+                            return ("closure item (captured)", i2[0])
+                    if po.get("l") is not None:
+                        return item_component(pf, FL.Defs(pf), {"cp": {"l": po["l"], "p": []}}, depth + 1)
+            return None
+        if o.get("k") == "call" and FL.short(callee(o["t"]) or callee_def(o["t"]) or "").endswith("::next"):
+            # (next() as Some).0 .<component>: the first index is the payload of Some
+            rest = [i for i in idxs]
+            if rest and rest[0] == 0:
+                rest = rest[1:]
+            if rest:
+                return ("loop item", rest[0])
+        return None
+    lm_src, uri_src = [], []
     for u in units:
         du = FL.Defs(u)
         for b, t in u.calls():
-            if (callee(t) or "").endswith("Vfs::line_map_for_file"):
-                o = du.origin_op(t["args"][1])
-                # the file is the key of the entry whose edits are converted: it comes from the closure's item (directly, or captured by the inner closure)
-                src = None
-                if o.get("k") == "field" and o["base"].get("k") == "arg" and o["base"].get("n") == 2:
-                    src = "item.%s" % [e.get("f") for e in o["proj"] if isinstance(e, dict)]
-                else:
-                    idx = FL.closure_env_field(o) if u.kind == "Closure" else None
-                    if idx is not None:
-                        pf, po = FL.upvar_origin(F, u.path, idx)
-                        if pf is not None:
-                            po2 = po if po.get("k") in ("field", "arg") else (FL.Defs(pf).origin(po["l"]) if po.get("l") is not None else po)
-                            if po2.get("k") == "field" and po2["base"].get("k") == "arg" and po2["base"].get("n") == 2 and pf.kind == "Closure":
-                                src = "item.%s of the per-file closure" % [e.get("f") for e in po2["proj"] if isinstance(e, dict)]
-                            elif po2.get("k") == "arg" and pf.kind == "Closure":
-                                src = "item of the per-file closure"
-                ok = src is not None and "[0]" in src
-                how = "line map looked up by %s" % src
-    res.ob(rule, "to_workspace_edit", "the edits of a file are converted with the line map of that file (the key of the entry they came from)", ok,
-           where=we.loc(), how=how)
+            c = callee(t) or ""
+            if c.endswith("Vfs::line_map_for_file"):
+                lm_src.append(item_component(u, du, t["args"][1]))
+            if c.endswith("Vfs::uri_for_file"):
+                uri_src.append(item_component(u, du, t["args"][1]))
+    ok = bool(lm_src) and all(x is not None and x[1] == 0 for x in lm_src) and bool(uri_src) and all(x is not None and x[1] == 0 for x in uri_src)
+    res.ob(rule, "to_workspace_edit", "the edits of a file are converted with the line map of that file and sent under its URI: both are looked up by "
+           "the key of the entry the edits came from", ok, where=we.loc(), how="line map looked up by %s; uri by %s" % (lm_src, uri_src))
     # diagnostics notes: a note may lie in another file; it is converted with this file's map only under a file test - or nothing produces notes
     producers = sorted(p for p, g in F.fns.items() if g.blocks and "::tests::" not in p and not p.startswith("ide::tests") and
                        any((callee(t) or "").endswith("Diagnostic::with_note") for b, t in g.calls()))
